@@ -406,7 +406,8 @@ def parseStreamId (bs : Bytes) : Option (Nat × Nat) :=
     | _, _ => none
 
 /-- The loader's `while entry_idx < remaining_count` loop (`usize` arithmetic wraps modulo 2^64).
-    First argument is fuel; `remaining + 1` suffices because `idx` grows by at least 2 per round. -/
+    First argument is fuel; the input length + 1 suffices because every round that does not leave
+    the loop reads two strings, i.e. at least two bytes (`decSnapshot_never_fuel`). -/
 def streamLoop (valid : Bool) (k : Bytes) (remaining : Nat) : Nat → Nat → Db → Bytes → Res Db
   | 0, _, _, _ => .err .fuel []
   | f+1, idx, db, bs =>
@@ -455,7 +456,7 @@ def loadTyped (fix : Fix) (valid : Bool) (db : Db) (ty : Nat) (dl : Option Nat) 
       (readString r1).bind fun first r2 =>
       if first = marker then
         (lift (if fix.keepEmptyStream ∧ n - 1 = 0 then setValue valid db ⟨k, .stream [], none⟩ else .ok db) r2).bind fun db0 r2' =>
-        (streamLoop valid k (n - 1) n 0 db0 r2').bind fun db1 r3 =>
+        (streamLoop valid k (n - 1) (r2'.length + 1) 0 db0 r2').bind fun db1 r3 =>
         (lift (expireOpt valid db1 k dl) r3).bind fun db2 r4 => .ok (k, db2) r4 []
       else
         (lift (rpush valid db k first) r2).bind fun db0 r2' =>
